@@ -145,15 +145,15 @@ func genC14(seed uint64, tier string, idx int) *Plan {
 
 // c14 model: replays the deliveries with their simulated times against the reference reassembly table.
 type refXfer struct {
-	id        uint16
-	total     int
-	got       map[uint16]bool
-	created   int64
-	updated   int64
-	serial1   uint16
-	lastReq   int64 // time of the last re-request (0 = none)
-	expired   bool
-	xi        int
+	id      uint16
+	total   int
+	got     map[uint16]bool
+	created int64
+	updated int64
+	serial1 uint16
+	lastReq int64 // time of the last re-request (0 = none)
+	expired bool
+	xi      int
 }
 
 func checkC14(r *Result) []Violation {
